@@ -418,6 +418,10 @@ def run(ctx):
         r234(ctx, p, fl)
 
     # ---- R5
+    # ... and that speed is the one the user set, down to the documented floor (the clause C20-R1
+    # decides, stated for C08: a higher floor in the setter caps the lengthening)
+    from .c20 import check_setter
+    check_setter(ctx, p, "C08-R5", "set_speed")
     g = cm.body_or_fail(ctx, p, "C08-R5", "engine::Engine::generator")
     if g is not None:
         eb = ExprBuilder(g)
